@@ -315,6 +315,11 @@ pub fn n_threads() -> usize {
 /// work stealing through an atomic counter), each on a big stack; merges.
 /// A panic escaping `f` (i.e. a harness bug or an uncaught target panic) is
 /// recorded as inconclusive, never as a violation.
+fn progress_file() -> Option<&'static str> {
+  static P: std::sync::OnceLock<Option<String>> = std::sync::OnceLock::new();
+  P.get_or_init(|| std::env::var("DGV_PROGRESS_FILE").ok()).as_deref()
+}
+
 pub fn par_run<F>(n: usize, f: F) -> Acc
 where
   F: Fn(usize, &mut Acc) + Sync,
@@ -338,6 +343,14 @@ where
               let i = next.fetch_add(1, Ordering::Relaxed);
               if i >= n {
                 break;
+              }
+              if let Some(pf) = progress_file() {
+                // crash localisation (second run after a process crash):
+                // the last indices written are the cases in flight
+                use std::io::Write;
+                if let Ok(mut fh) = std::fs::OpenOptions::new().append(true).create(true).open(pf) {
+                  let _ = writeln!(fh, "{}", i);
+                }
               }
               let r = catch(|| f(i, &mut acc));
               if let Err(p) = r {
